@@ -76,6 +76,11 @@ fn run(req: &Sx) -> String {
                 other => panic!("unknown receiver {}", other),
             }
         }
+        "ast_generics" => {
+            let di: syn::DeriveInput = match syn::parse_str(src) { Ok(d) => d, Err(e) => return format!("{{\"parse_error\":{}}}", jstr(&e.to_string())) };
+            res(entry_ast_generics(&di.generics), |g| format!("{{\"params\":{},\"where\":{}}}", g.params.len(),
+                match &g.where_clause { Some(w) => jstr(&quote::ToTokens::to_token_stream(w).to_string()), None => "null".into() }))
+        }
         other => panic!("unknown request {}", other),
     }
 }
